@@ -122,14 +122,23 @@ func init() {
 					}
 				}
 			}
-			for _, noopt := range []bool{false, true} {
+			refKnownCase := refKnown
+			for _, mode := range []string{"opt", "noopt", "opt-nilglobals"} {
+				noopt := mode == "noopt"
+				// a session made without a globals object (NewEval(opts, nil)) has globals all the same: what one fragment
+				// writes the next one reads; compared with the single script only, through the globals() builtin
+				nilGlobals := mode == "opt-nilglobals"
+				refKnown := refKnownCase && !nilGlobals
 				func() {
 					defer func() {
 						if p := recover(); p != nil {
-							fail("panic (noopt=%v): %v", noopt, p)
+							fail("panic (%s): %v", mode, p)
 						}
 					}()
 					mk := func() (*ugo.Eval, ugo.Map) {
+						if nilGlobals {
+							return ugo.NewEval(ugo.CompilerOptions{ModuleMap: moduleMapOf(c.Prog), NoOptimize: noopt}, nil), nil
+						}
 						g := ugo.Map{"log": ugo.Array{}}
 						return ugo.NewEval(ugo.CompilerOptions{ModuleMap: moduleMapOf(c.Prog), NoOptimize: noopt}, g), g
 					}
@@ -174,8 +183,11 @@ func init() {
 						}
 						// the variable state after the fragment - also after the one that failed - is the state of the
 						// single script at that point: read every top-level name declared so far in both sessions
-						if names := topLevelNames(all); len(names) > 0 {
+						if names := topLevelNames(all); len(names) > 0 || nilGlobals {
 							probe := []byte("return [" + strings.Join(names, ", ") + "]")
+							if nilGlobals {
+								probe = []byte("return [globals(), [" + strings.Join(names, ", ") + "]]")
+							}
 							pr, _, perr := sess.Run(context.Background(), probe)
 							br, _, bperr := batch.Run(context.Background(), probe)
 							if ps, bs := evalObs(pr, perr, g), evalObs(br, bperr, bg); ps != bs {
